@@ -1,4 +1,4 @@
-import RV.C04.BoundsLemmas
+import RV.C04.OpLemmas2
 /-
   C04 — the induction: on the proved fragment (BGP, lazy and non-lazy Join, Union, Filter and
   Extend with EXISTS-free expressions, Values) rdflib's top-down evaluation under pushed-in
@@ -32,8 +32,8 @@ theorem specEval_extend (D : Dataset) (g : Graph) (_σ : Row n) (p : Alg) (v : N
   | none =>
     cases he : Spec.evalExpr D g Row.empty μ e <;> simp [extendStepS, hv, he]
 
-theorem pushdown_fragment {D : Dataset} : ∀ (P : Alg), P.inFragment = true → P.safe = true →
-    (∀ v ∈ P.allVars, v < n) → ∀ (g : Graph) (μ0 : Row n),
+theorem pushdown_fragment {D : Dataset} (hD : (D.named.map (·.1)).Nodup) : ∀ (P : Alg), P.inFragment = true →
+    P.safe = true → (∀ v ∈ P.allVars, v < n) → ∀ (g : Graph) (μ0 : Row n),
       (Model.evalPart D g μ0 P).Perm (push μ0 (Spec.eval D g Row.empty P))
   | .bgp tps, _, _, _, g, μ0 => by
     simp only [Model.evalPart, Spec.eval]
@@ -43,22 +43,22 @@ theorem pushdown_fragment {D : Dataset} : ∀ (P : Alg), P.inFragment = true →
     simp only [Alg.safe, Bool.and_eq_true] at hs
     simp only [Model.evalPart, Spec.eval]
     exact pushdown_join_lazy
-      (pushdown_fragment a hf.1 hs.1 (fun v hv => hws v (by simp [Alg.allVars, hv])) g μ0)
-      (fun x => pushdown_fragment b hf.2 hs.2 (fun v hv => hws v (by simp [Alg.allVars, hv])) g x)
+      (pushdown_fragment hD a hf.1 hs.1 (fun v hv => hws v (by simp [Alg.allVars, hv])) g μ0)
+      (fun x => pushdown_fragment hD b hf.2 hs.2 (fun v hv => hws v (by simp [Alg.allVars, hv])) g x)
   | .join false a b, hf, hs, hws, g, μ0 => by
     simp only [Alg.inFragment, Bool.and_eq_true] at hf
     simp only [Alg.safe, Bool.and_eq_true] at hs
     simp only [Model.evalPart, Spec.eval]
     exact pushdown_join_strict
-      (pushdown_fragment a hf.1 hs.1 (fun v hv => hws v (by simp [Alg.allVars, hv])) g μ0)
-      (pushdown_fragment b hf.2 hs.2 (fun v hv => hws v (by simp [Alg.allVars, hv])) g μ0)
+      (pushdown_fragment hD a hf.1 hs.1 (fun v hv => hws v (by simp [Alg.allVars, hv])) g μ0)
+      (pushdown_fragment hD b hf.2 hs.2 (fun v hv => hws v (by simp [Alg.allVars, hv])) g μ0)
   | .union a b, hf, hs, hws, g, μ0 => by
     simp only [Alg.inFragment, Bool.and_eq_true] at hf
     simp only [Alg.safe, Bool.and_eq_true] at hs
     simp only [Model.evalPart, Spec.eval]
     exact pushdown_union
-      (pushdown_fragment a hf.1 hs.1 (fun v hv => hws v (by simp [Alg.allVars, hv])) g μ0)
-      (pushdown_fragment b hf.2 hs.2 (fun v hv => hws v (by simp [Alg.allVars, hv])) g μ0)
+      (pushdown_fragment hD a hf.1 hs.1 (fun v hv => hws v (by simp [Alg.allVars, hv])) g μ0)
+      (pushdown_fragment hD b hf.2 hs.2 (fun v hv => hws v (by simp [Alg.allVars, hv])) g μ0)
   | .filter e p vars noIso, hf, hs, hws, g, μ0 => by
     simp only [Alg.inFragment, Bool.and_eq_true] at hf
     simp only [Alg.safe, Bool.and_eq_true, Bool.not_eq_true'] at hs
@@ -66,7 +66,7 @@ theorem pushdown_fragment {D : Dataset} : ∀ (P : Alg), P.inFragment = true →
     subst hni
     have hwsp : ∀ v ∈ p.allVars, v < n := fun v hv => hws v (by simp [Alg.allVars, hv])
     simp only [Model.evalPart, Spec.eval, Bool.false_eq_true, if_false]
-    exact pushdown_filter (pushdown_fragment p hf.2 hps hwsp g μ0) hf.1 hsc
+    exact pushdown_filter (pushdown_fragment hD p hf.2 hps hwsp g μ0) hf.1 hsc
       (fun μ hμ => spec_bounds p hf.2 hwsp g μ hμ)
   | .extend p v e vars, hf, hs, hws, g, μ0 => by
     simp only [Alg.inFragment, Bool.and_eq_true] at hf
@@ -74,14 +74,57 @@ theorem pushdown_fragment {D : Dataset} : ∀ (P : Alg), P.inFragment = true →
     obtain ⟨⟨⟨⟨hps, _⟩, hvm⟩, _⟩, hsc⟩ := hs
     have hwsp : ∀ v ∈ p.allVars, v < n := fun v hv => hws v (by simp [Alg.allVars, hv])
     rw [evalPart_extend, specEval_extend D g Row.empty]
-    exact pushdown_extend (pushdown_fragment p hf.2 hps hwsp g μ0) hf.1 hsc
+    exact pushdown_extend (pushdown_fragment hD p hf.2 hps hwsp g μ0) hf.1 hsc
       (fun μ hμ => spec_bounds p hf.2 hwsp g μ hμ) hvm
   | .values vars rows, _, _, _, g, μ0 => by
     simp only [Model.evalPart, Spec.eval]
     exact List.Perm.of_eq (pushdown_values μ0 vars rows)
   | .leftJoin _ _ _ _ _, hf, _, _, _, _ => by simp [Alg.inFragment] at hf
-  | .minus _ _ _, hf, _, _, _, _ => by simp [Alg.inFragment] at hf
-  | .graph _ _, hf, _, _, _, _ => by simp [Alg.inFragment] at hf
-  | .project _ _, hf, _, _, _, _ => by simp [Alg.inFragment] at hf
+  | .minus a b p1vars, hf, hs, hws, g, μ0 => by
+    simp only [Alg.inFragment, Bool.and_eq_true] at hf
+    simp only [Alg.safe, Bool.and_eq_true] at hs
+    obtain ⟨⟨has, hbs⟩, hsc⟩ := hs
+    have hwsa : ∀ v ∈ a.allVars, v < n := fun v hv => hws v (by simp [Alg.allVars, hv])
+    have hwsb : ∀ v ∈ b.allVars, v < n := fun v hv => hws v (by simp [Alg.allVars, hv])
+    simp only [Model.evalPart, Spec.eval]
+    have hb := pushdown_fragment hD b hf.2 hbs hwsb g (Row.empty : Row n)
+    rw [push_empty] at hb
+    exact pushdown_minus (pushdown_fragment hD a hf.1 has hwsa g μ0) hb hsc
+      (fun μ hμ => spec_bounds a hf.1 hwsa g μ hμ)
+      (fun y hy v hv => (spec_bounds b hf.2 hwsb g y hy).2 v hv)
+  | .graph gp p, hf, hs, hws, g, μ0 => by
+    simp only [Alg.inFragment] at hf
+    simp only [Alg.safe] at hs
+    have hwsp : ∀ v ∈ p.allVars, v < n := fun v hv => hws v (by simp [Alg.allVars, hv])
+    have ih := fun gr μ => pushdown_fragment hD p hf hs hwsp gr μ
+    simp only [Model.evalPart, Spec.eval, substPos_empty]
+    cases gp with
+    | const t =>
+      simp only [Pos.lookup]
+      cases hn : D.isName t with
+      | true => simpa using ih (D.graphOf t) μ0
+      | false =>
+        have : D.graphOf t = [] := graphOfList_of_not_name D.named t hn
+        simp [this, push]
+    | var v =>
+      simp only [Pos.lookup]
+      cases hv : μ0.get v with
+      | none => exact pushdown_graph_unbound v D.named _ _ (fun gr => ih gr μ0)
+      | some t =>
+        simp only []
+        rw [push_graph_bound hv D.named hD (fun gr => Spec.eval D gr (Row.empty : Row n) p)]
+        show (if ((D.graphOf t).isEmpty && !D.isName t) = true then [] else Model.evalPart D (D.graphOf t) μ0 p).Perm
+          (bif D.isName t then push μ0 (Spec.eval D (D.graphOf t) Row.empty p) else [])
+        cases hn : D.isName t with
+        | true => simpa using ih (D.graphOf t) μ0
+        | false =>
+          have : D.graphOf t = [] := graphOfList_of_not_name D.named t hn
+          simp [this]
+  | .project p pv, hf, hs, hws, g, μ0 => by
+    simp only [Alg.inFragment] at hf
+    simp only [Alg.safe] at hs
+    have hwsp : ∀ v ∈ p.allVars, v < n := fun v hv => hws v (by simp [Alg.allVars, hv])
+    simp only [Model.evalPart, Spec.eval, Row.restrict_empty]
+    exact pushdown_project pv (pushdown_fragment hD p hf hs hwsp g (μ0.restrict pv))
 
 end RV.C04
